@@ -347,6 +347,38 @@ Definition maps_trace (e : engine) (hi : nat) (H : graph) (pi : nat) (P : graph)
   [if ok then 1%N else 0%N;
    if ok then (if (n_nodes P =? n_nodes H) && (n_edges P =? n_edges H) then 1%N else 3%N) else 0%N].
 
+(** ---------- SubgraphSearchEngine._quick_pre_filter and find_subgraph_mappings(strategy="all", pre_filter=...) ----------
+    (the third pre-filter the property anchors; the search engine itself belongs to property C06, which models every strategy — here only
+    what the pre-filter clause needs).  _quick_pre_filter answers True = "skip the search": some pattern node has no host candidate
+    (selected attributes equal, hcount host >= pattern, degree host >= pattern), or the running product of the candidate counts exceeds
+    threshold * 1e4 — the documented estimate guard, which is NOT a necessary condition. *)
+Definition qpf_count (na : list N) (H P : graph) (p : N) : N :=
+  N.of_nat (length (filter (fun h => forallb (fun k => opt_eqb (get k (nlabel H h)) (get k (nlabel P p))) na
+                                     && (hc (nlabel P p) <=? hc (nlabel H h))%N
+                                     && (length (nbrs P p) <=? length (nbrs H h))%nat) (node_ids H))).
+Fixpoint qpf_loop (na : list N) (H P : graph) (thr : N) (ps : list N) (est : N) : bool :=
+  match ps with
+  | [] => false
+  | p :: r => let c := qpf_count na H P p in
+              if N.eqb c 0 then true
+              else let e := (est * c)%N in if (thr * 10000 <? e)%N then true else qpf_loop na H P thr r e
+  end.
+Definition quick_pre_filter (na : list N) (H P : graph) (thr : N) : bool := qpf_loop na H P thr (node_ids P) 1%N.
+(** does the estimate guard (and not an empty candidate set) decide? *)
+Fixpoint qpf_guard (na : list N) (H P : graph) (thr : N) (ps : list N) (est : N) : bool :=
+  match ps with
+  | [] => false
+  | p :: r => let c := qpf_count na H P p in
+              if N.eqb c 0 then false
+              else let e := (est * c)%N in if (thr * 10000 <? e)%N then true else qpf_guard na H P thr r e
+  end.
+(** strategy "all", max_results None: every monomorphism (not induced) under the engine-style matchers, [] when there are more than
+    threshold of them; with pre_filter the search is skipped when _quick_pre_filter says so *)
+Definition find_all (na ea : list N) (thr : N) (pf : bool) (H P : graph) : list mapping :=
+  if pf && quick_pre_filter na H P thr then []
+  else let l := monos_g false (nm_eng (Eng na ea false None)) (em_eng (Eng na ea false None)) H P in
+       if (thr <? N.of_nat (length l))%N then [] else l.
+
 (** ---------- GraphMatcherEngine.__init__: option normalisation ----------
     backend: lower-cased, must be an available back-end ("nx"; "mod" only when the mod package is importable — it is not);
     node_attrs / edge_attrs: `tuple(x or ())`; wl1_filter: `bool(x)` (the truthiness of the value is computed by the caller's
@@ -387,7 +419,8 @@ Inductive query :=
 | QEntry (fn : sub_fn) (child parent : nat) (o : sub_opts)
 | QCtor (r : eng_raw)
 | QObj (maps : bool) (e : nat) (i j : option nat)           (* isomorphic / get_mappings called with a non-Graph argument (None) *)
-| QFgiT (t1 t2 : N) (i j : nat) (use_defaults fast : bool) (dstar dzero done : N).   (* graph classes: 0 Graph, 1 DiGraph, 2 MultiGraph, 3 MultiDiGraph *)
+| QFgiT (t1 t2 : N) (i j : nat) (use_defaults fast : bool) (dstar dzero done : N)   (* graph classes: 0 Graph, 1 DiGraph, 2 MultiGraph, 3 MultiDiGraph *)
+| QQpf (host pattern : nat) (na ea : list N) (thr : N).
 
 Definition gnth (gs : list graph) (i : nat) : graph := nth i gs (LG [] []).
 Definition enth (es : list engine) (i : nat) : engine := nth i es (Eng [] [] false None).
@@ -432,6 +465,9 @@ Definition step (gs : list graph) (es : list engine) (q : query) (c : cache) : t
   | QFgiT t1 t2 i j ud fa a b d =>
       (* `if type(G1) is not type(G2): return None` comes first; only two plain Graphs are modelled beyond that *)
       (if N.eqb t1 t2 then (if fgi ud fa a b d (gnth gs i) (gnth gs j) then tbool true else tbool false) else tbool false, c)
+  | QQpf h p na ea thr =>
+      (L [tbool (quick_pre_filter na (gnth gs h) (gnth gs p) thr); tnat (length (find_all na ea thr false (gnth gs h) (gnth gs p)));
+          tnat (length (find_all na ea thr true (gnth gs h) (gnth gs p)))], c)
   end.
 
 Fixpoint run_from (gs : list graph) (es : list engine) (qs : list query) (c : cache) : list tok :=
